@@ -102,6 +102,39 @@ func Families(tier string, seed int64) []*spec.Program {
 		out = append(out, v)
 	}
 
+	// ---- C12 (and C02/C10): a selected type whose nested message types are defined in another file of the
+	// request, with their own comments; extensions add a documented message at the same index to the file
+	// being generated
+	{
+		depPk := "pkdep_f_cross"
+		dep := spec.Dep{File: "common/common.proto", Package: depPk, GoPackage: "verifcorpus/f_cross/dep", Messages: []spec.Msg{
+			M("Paging", nil, F("Page", "int32"), F("PerPage", "int32")),
+			M("Labels", nil, F("Key", "string"), F("Value", "string"), F("More", "string", rep())),
+		}}
+		order := M("Order", nil, F("Id", "string"), F("Labels", "msg:."+depPk+".Labels"), F("Paging", "msg:."+depPk+".Paging", nn()),
+			F("LabelList", "msg:."+depPk+".Labels", rep()), F("Tags", "string", rep()))
+		cb := prog("f_cross", append([]string{"C12"}, convProps...), baseConfig("Order"), nil, order)
+		cb.Spec.Deps = []spec.Dep{dep}
+		// gogo refers to the other package by its name; the import path is the user's to give (README)
+		cb.Config.ImportPathOverrides = map[string]string{"dep": dep.GoPackage}
+		cb.Family, cb.Role = "f_cross", "base"
+		out = append(out, cb)
+		invoice := M("Invoice", nil, F("Number", "string"), F("Amount", "int64"))
+		ext := variant(cb, "f_cross_ext", "extension", "C01", "C12")
+		ext.Spec.Messages = append(ext.Spec.Messages, invoice)
+		ext.NoRun = true
+		out = append(out, ext)
+		sel := variant(cb, "f_cross_sel", "selection", "C01", "C12")
+		sel.Spec.Messages = append(sel.Spec.Messages, invoice)
+		sel.Config.Types = []string{"Order", "Invoice"}
+		sel.NoRun = true
+		out = append(out, sel)
+		pre := variant(cb, "f_cross_pre", "extension", "C01", "C12")
+		pre.Spec.Messages = append([]spec.Msg{M("Receipt", nil, F("Total", "int64"), F("Note", "string"), F("Paid", "bool"))}, pre.Spec.Messages...)
+		pre.NoRun = true
+		out = append(out, pre)
+	}
+
 	// ---- C13: separate package
 	sepBases := []*spec.Program{base}
 	for _, a := range Atlas() {
@@ -321,6 +354,19 @@ func Families(tier string, seed int64) []*spec.Program {
 			}
 			if in.nodur {
 				ref.Config.DurationType = false
+			}
+			if in.msg == "Gamma" {
+				// a mappable selected type, declared before the failing one, whose name starts with the failing
+				// type's name: it must not share the failing type's fate
+				var ms []spec.Msg
+				for _, m := range ref.Spec.Messages {
+					if m.Name == "Gamma" {
+						ms = append(ms, M("GammaV2", nil, F("Name", "string"), F("Count", "int32")))
+					}
+					ms = append(ms, m)
+				}
+				ref.Spec.Messages = ms
+				ref.Config.Types = append(ref.Config.Types, "GammaV2")
 			}
 			ref.NoRun = true
 			out = append(out, ref)
